@@ -427,7 +427,8 @@ func contract(falco string, c *lcCell) string {
 				want = append(want, ruleName[d.Rule]+"|"+sevName[d.Sev]+"|"+d.File+".vcl")
 			}
 			sort.Strings(want)
-			if strings.Join(want, ",") != strings.Join(o.JsonRules, ",") {
+			// a binary that dies here is not a broken fixture: the replay of the program's cells reports the crash
+			if o.Crash == "" && strings.Join(want, ",") != strings.Join(o.JsonRules, ",") {
 				res = fmt.Sprintf("program %s: linter reports %v, model lists %v", key, o.JsonRules, want)
 			}
 		} else {
